@@ -1,12 +1,251 @@
 (* C11 - NTS cookie lifecycle: single use, pool capped at eight, requests always fit.
-   Model: Model/CookiePool.v; oracle: Model/CookieOracle.v. *)
+
+   Model: Model/CookiePool.v (net/ntske/fetcher.go FetchData/StoreCookie;
+   net/nts/nts.go NewRequestPacket, NewResponsePacket, EncodePacket and the pack
+   methods on the fixed 1024-byte buffer, DecodePacket, maxCookies; the cookie
+   replenishment of core/server/server_ip.go / server_scion.go; the eight cookies
+   of core/server/ntske.go).  Oracle: Model/CookieOracle.v.
+
+   Histories: a list of calls of one client; every call is described by
+   [exch]: does a key exchange (needed when the pool is empty) succeed, does
+   the request/reply exchange succeed (anything else - lost request, lost or
+   damaged reply, server that no longer has the key - is a loss), and how many
+   cookies the servers hand to other clients in between.  [issue k] is the k-th
+   cookie the servers ever issue; "server nonces are fresh" is the hypothesis
+   that [issue] is injective.  Cookies are [clen] bytes long ([124] for this
+   project's servers, [serverCookieLen]); the unique identifier has 32 bytes.
+
+   AES-SIV is a Section variable: [seal] with the only assumption that the
+   ciphertext is 16 bytes longer than the plaintext, and for the last theorem
+   [open] with [open (seal ...) = plaintext]; an instance is given at the end. *)
 From ST Require Import Base.Ints Base.Bytes Model.CookiePool Proofs.CookiePoolProofs.
-From Coq Require Import ZArith List.
+From Coq Require Import ZArith List Bool Lia.
 Import ListNotations.
 Open Scope Z_scope.
 
+(* ---------- single use ---------- *)
+
+(* over every history the cookies sent in requests are pairwise distinct *)
 Theorem C11_no_reuse : forall (C : Type) (issue : nat -> C),
   (forall i j, issue i = issue j -> i = j) ->
   forall clen (os : list exch), NoDup (s_sent (sys_run issue clen sys0 os)).
 Proof. intros C issue Hinj clen os. exact (no_reuse issue Hinj clen os). Qed.
 Print Assumptions C11_no_reuse.
+
+(* a cookie that has been sent is never in the pool again *)
+Theorem C11_sent_leaves_pool : forall (C : Type) (issue : nat -> C),
+  (forall i j, issue i = issue j -> i = j) ->
+  forall clen (os : list exch) x,
+  In x (s_sent (sys_run issue clen sys0 os)) -> ~ In x (s_pool (sys_run issue clen sys0 os)).
+Proof. intros C issue Hinj clen os x. exact (sent_not_pooled issue Hinj clen os x). Qed.
+Print Assumptions C11_sent_leaves_pool.
+
+(* one call sends nothing (empty pool, failed key exchange) or exactly one cookie:
+   the head of the pool, or the first cookie of a new key exchange *)
+Theorem C11_one_cookie_per_call : forall (C : Type) (issue : nat -> C) clen (s : sys C) o,
+  s_sent (sys_step issue clen s o) = s_sent s \/
+  exists c, s_sent (sys_step issue clen s o) = c :: s_sent s /\ (s_pool s = [] \/ exists r, s_pool s = c :: r).
+Proof. intros C issue clen s o. exact (step_sends issue clen s o). Qed.
+Print Assumptions C11_one_cookie_per_call.
+
+(* ---------- the request on the wire ---------- *)
+
+(* For every pool c :: rest (level = its length), any cookie length of which at
+   least one fits: NewRequestPacket + EncodePacket do not panic and produce exactly
+   header, unique identifier field, ONE cookie field with c, p placeholder fields
+   typed 0x0304 with a zero body as long as the cookie, authenticator;
+   p = min(8 - level, maxCookies - 1); the length is request_len <= 1024. *)
+Theorem C11_request_shape : forall (seal : bytes -> bytes -> bytes -> bytes -> bytes),
+  (forall k n p a, zlen (seal k n p a) = zlen p + 16) ->
+  forall hdr id c rest kc2s nonce,
+  zlen hdr = 48 -> zlen id = 32 -> key_ok kc2s = true -> zlen nonce = 16 ->
+  1 <= max_cookies 32 (zlen c) ->
+  let level := zlen (c :: rest) in
+  let p := Z.to_nat (Z.max 0 (num_placeholders level 32 (zlen c))) in
+  exists pkt, new_request (c :: rest) kc2s id = Ok pkt /\
+    p_cookies pkt = [c] /\ length (p_placeholders pkt) = p /\
+    encode_packet seal hdr pkt nonce = Ok (request_wire seal hdr id c nonce kc2s p) /\
+    zlen (request_wire seal hdr id c nonce kc2s p) = request_len level 32 (zlen c) /\
+    request_len level 32 (zlen c) <= MaxPacketLen.
+Proof. intros seal Hs. exact (request_encoding seal Hs). Qed.
+Print Assumptions C11_request_shape.
+
+(* as many placeholders as cookies are missing, fewer only when one more field would not fit *)
+Theorem C11_placeholders_maximal : forall idLen clen level,
+  0 <= clen -> 1 <= max_cookies idLen clen -> 1 <= level <= numStoredCookies ->
+  let p := Z.max 0 (num_placeholders level idLen clen) in
+  p = numStoredCookies - level \/
+  MaxPacketLen < ntpPacketLen + field_len idLen + (p + 2) * field_len clen + auth_len 0.
+Proof. exact placeholders_maximal. Qed.
+Print Assumptions C11_placeholders_maximal.
+
+(* the numbers for the cookies this project's servers issue (124 bytes), every pool level 1..8:
+   124 + 128 * (1 + min(8 - level, 6)) bytes, never more than 1020; the reply carries
+   as many cookies as fields requested and has the same length *)
+Theorem C11_fits : forall level,
+  1 <= level <= 8 ->
+  request_len level 32 124 = 124 + 128 * (1 + Z.min (8 - level) 6) /\
+  request_len level 32 124 <= 1024 /\
+  let r := 1 + Z.max 0 (num_placeholders level 32 124) in
+  reply_count r 32 124 = r /\
+  reply_len (reply_count r 32 124) 32 124 = request_len level 32 124.
+Proof. exact fits_issued. Qed.
+Print Assumptions C11_fits.
+
+Theorem C11_issued_cookie_length : serverCookieLen = 124 /\ max_cookies 32 serverCookieLen = 7.
+Proof. split; reflexivity. Qed.
+Print Assumptions C11_issued_cookie_length.
+
+(* for any cookie and identifier length of which one cookie fits: requests at every
+   level and replies to any number of requested cookies fit *)
+Theorem C11_fits_general : forall idLen clen,
+  0 <= clen -> 1 <= max_cookies idLen clen ->
+  (forall level, 1 <= level -> request_len level idLen clen <= MaxPacketLen) /\
+  (forall r, 1 <= r -> reply_len (reply_count r idLen clen) idLen clen <= MaxPacketLen).
+Proof.
+  intros idLen clen Hc Hm. split.
+  - intros level Hl. exact (request_fits idLen clen level Hc Hm Hl).
+  - intros r Hr. exact (reply_fits idLen clen r Hc Hm Hr).
+Qed.
+Print Assumptions C11_fits_general.
+
+(* ---------- the pool ---------- *)
+
+(* a successful exchange never shrinks the pool, and no call makes it larger than eight *)
+Theorem C11_pool_bounds : forall (C : Type) (issue : nat -> C),
+  (forall i j, issue i = issue j -> i = j) ->
+  forall clen, clen <= MaxCookieLen ->
+  forall s o, reachable issue clen s ->
+  (length (s_pool (sys_step issue clen s o)) <= 8)%nat /\
+  (e_ok o = true -> (length (s_pool s) <= length (s_pool (sys_step issue clen s o)))%nat).
+Proof.
+  intros C issue Hinj clen Hc s o Hr. pose proof (reachable_inv issue Hinj clen s Hr) as HI. split.
+  - exact (pool_le_eight issue Hinj clen s o HI).
+  - intros Hok. exact (proj1 (success_never_shrinks issue Hinj clen Hc s o HI Hok)).
+Qed.
+Print Assumptions C11_pool_bounds.
+
+(* a pool of eight stays at eight over a successful exchange *)
+Theorem C11_stays_eight : forall (C : Type) (issue : nat -> C),
+  (forall i j, issue i = issue j -> i = j) ->
+  forall clen, clen <= MaxCookieLen ->
+  forall s o, reachable issue clen s -> e_ok o = true -> length (s_pool s) = 8%nat ->
+  length (s_pool (sys_step issue clen s o)) = 8%nat.
+Proof.
+  intros C issue Hinj clen Hc s o Hr. exact (stays_eight issue Hinj clen Hc s o (reachable_inv issue Hinj clen s Hr)).
+Qed.
+Print Assumptions C11_stays_eight.
+
+(* loss-free operation: after every call the pool holds eight cookies *)
+Theorem C11_loss_free_eight : forall (C : Type) (issue : nat -> C),
+  (forall i j, issue i = issue j -> i = j) ->
+  forall clen, clen <= MaxCookieLen ->
+  forall os, loss_free os -> os <> [] -> length (s_pool (sys_run issue clen sys0 os)) = 8%nat.
+Proof. intros C issue Hinj clen Hc os. exact (loss_free_eight issue Hinj clen Hc os). Qed.
+Print Assumptions C11_loss_free_eight.
+
+(* a lost exchange costs exactly the cookie that was sent; an empty pool is refilled by
+   a key exchange (eight cookies, one of them used at once); when that fails nothing is sent *)
+Theorem C11_losses_and_rekeying : forall (C : Type) (issue : nat -> C),
+  (forall i j, issue i = issue j -> i = j) ->
+  forall clen, clen <= MaxCookieLen ->
+  forall s o, reachable issue clen s ->
+  (s_pool s <> [] -> e_ok o = false ->
+     length (s_pool (sys_step issue clen s o)) = (length (s_pool s) - 1)%nat) /\
+  (s_pool s = [] -> e_ke_ok o = true -> e_ok o = false -> length (s_pool (sys_step issue clen s o)) = 7%nat) /\
+  (s_pool s = [] -> e_ke_ok o = true -> e_ok o = true -> length (s_pool (sys_step issue clen s o)) = 8%nat) /\
+  (s_pool s = [] -> e_ke_ok o = false ->
+     s_pool (sys_step issue clen s o) = [] /\ s_sent (sys_step issue clen s o) = s_sent s).
+Proof.
+  intros C issue Hinj clen Hc s o Hr. pose proof (reachable_inv issue Hinj clen s Hr) as HI.
+  split; [|split; [|split]].
+  - intros Hne Hok. exact (loss_pops_one issue Hinj clen Hc s o HI Hne Hok).
+  - intros He Hk Hok. exact (rekey_loss issue Hinj clen Hc s o He Hk Hok).
+  - intros He Hk Hok. exact (rekey_success issue Hinj clen Hc s o He Hk Hok).
+  - intros He Hk. exact (kefail_nothing issue clen s o He Hk).
+Qed.
+Print Assumptions C11_losses_and_rekeying.
+
+(* with 124-byte cookies, whatever was lost before: two successful calls restore a pool of eight *)
+Theorem C11_recovers_in_two : forall (C : Type) (issue : nat -> C),
+  (forall i j, issue i = issue j -> i = j) ->
+  forall s o1 o2, reachable issue 124 s ->
+  e_ke_ok o1 = true -> e_ok o1 = true -> e_ok o2 = true ->
+  length (s_pool (sys_step issue 124 (sys_step issue 124 s o1) o2)) = 8%nat.
+Proof.
+  intros C issue Hinj s o1 o2 Hr. exact (recovers_in_two issue Hinj s o1 o2 (reachable_inv issue Hinj 124 s Hr)).
+Qed.
+Print Assumptions C11_recovers_in_two.
+
+(* ---------- the reply ---------- *)
+
+(* The server made the cookies cs (one per cookie or placeholder of the request, all
+   of one length L, a multiple of 4) for a request with identifier uid.
+   NewResponsePacket + EncodePacket do not panic; the reply is header, the request's
+   unique identifier, authenticator whose ciphertext seals - under S2C, with all
+   bytes before the authenticator as associated data - the first k cookies as
+   cookie fields, k = all of them or as many as fit; its length is reply_len k <= 1024. *)
+Theorem C11_reply : forall (seal : bytes -> bytes -> bytes -> bytes -> bytes),
+  (forall k n p a, zlen (seal k n p a) = zlen p + 16) ->
+  forall hdr uid c0 r ks2c nonce L,
+  let cs := c0 :: r in
+  zlen hdr = 48 -> 32 <= zlen uid -> key_ok ks2c = true -> zlen nonce = 16 ->
+  Forall (fun c => zlen c = L) cs -> L mod 4 = 0 -> 0 <= L ->
+  1 <= max_cookies (zlen uid) L ->
+  let k := reply_count (zlen cs) (zlen uid) L in
+  let sent := firstn (Z.to_nat k) cs in
+  exists pkt, new_response cs ks2c uid = Ok pkt /\
+    encode_packet seal hdr pkt nonce = Ok (reply_wire seal hdr uid nonce ks2c sent) /\
+    zlen sent = k /\
+    zlen (reply_wire seal hdr uid nonce ks2c sent) = reply_len k (zlen uid) L /\
+    reply_len k (zlen uid) L <= MaxPacketLen.
+Proof. intros seal Hs. exact (reply_encoding seal Hs). Qed.
+Print Assumptions C11_reply.
+
+Theorem C11_reply_cookie_count : forall idLen clen r,
+  0 <= clen -> 1 <= max_cookies idLen clen -> 1 <= r ->
+  1 <= reply_count r idLen clen <= r /\
+  (reply_count r idLen clen = r \/ MaxPacketLen < reply_len (reply_count r idLen clen + 1) idLen clen).
+Proof.
+  intros idLen clen r Hc Hm Hr. split.
+  - exact (reply_count_bounds r idLen clen Hr).
+  - exact (reply_count_maximal idLen clen r Hc Hm Hr).
+Qed.
+Print Assumptions C11_reply_cookie_count.
+
+(* the requester can authenticate the reply: with the S2C key, the nonce and the bytes
+   before the authenticator, AES-SIV opens the ciphertext to the cookie fields *)
+Theorem C11_reply_authenticable : forall (seal : bytes -> bytes -> bytes -> bytes -> bytes)
+  (open : bytes -> bytes -> bytes -> bytes -> option bytes),
+  (forall k n p a, open k n (seal k n p a) a = Some p) ->
+  forall hdr uid nonce ks2c sent,
+  let pre := hdr ++ enc_field extUniqueIdentifier uid in
+  exists ct, reply_wire seal hdr uid nonce ks2c sent = pre ++ enc_auth nonce ct /\
+             open ks2c nonce ct pre = Some (concat (map (enc_field extCookie) sent)).
+Proof. intros seal open Ho. exact (reply_opens seal open Ho). Qed.
+Print Assumptions C11_reply_authenticable.
+
+(* ---------- the hypotheses are satisfiable; the definitions compute ---------- *)
+
+Example issue_fresh_example : forall i j : nat, (fun n => n) i = (fun n => n) j -> i = j.
+Proof. intros i j H. exact H. Qed.
+
+Definition toy_seal (k n p a : bytes) : bytes := repeat 0 16 ++ p.
+Definition toy_open (k n c a : bytes) : option bytes := Some (skipn 16 c).
+Example toy_seal_len : forall k n p a, zlen (toy_seal k n p a) = zlen p + 16.
+Proof. intros. unfold toy_seal, zlen. rewrite app_length, repeat_length. lia. Qed.
+Example toy_open_seal : forall k n p a, toy_open k n (toy_seal k n p a) a = Some p.
+Proof. intros. reflexivity. Qed.
+
+Definition ok_call : exch := {| e_ke_ok := true; e_ok := true; e_skip := 3 |}.
+Definition lost_call : exch := {| e_ke_ok := true; e_ok := false; e_skip := 0 |}.
+(* pool sizes along: success, 7 losses (down to level 1), success (1 -> 7), success (-> 8) *)
+Example pool_levels_example :
+  map (fun n => length (s_pool (sys_run (fun k => k) 124 sys0 (firstn n (ok_call :: repeat lost_call 7 ++ [ok_call; ok_call])))))
+      (seq 1 10) = [8; 7; 6; 5; 4; 3; 2; 1; 7; 8]%nat.
+Proof. vm_compute. reflexivity. Qed.
+(* eight losses in a row empty the pool; the next call re-keys *)
+Example rekey_example :
+  map (fun n => length (s_pool (sys_run (fun k => k) 124 sys0 (firstn n (repeat lost_call 9 ++ [ok_call])))))
+      (seq 1 10) = [7; 6; 5; 4; 3; 2; 1; 0; 7; 8]%nat.
+Proof. vm_compute. reflexivity. Qed.
